@@ -21,6 +21,9 @@ Arrays == {ArrOf("int", s[1], s[2], IntEl) : s \in Shapes} \cup {ArrOf("float", 
           \cup {ArrOf("complex", s[1], s[2], CpxEl) : s \in Shapes}
 Scalars == { IntV(0), IntV(7), IntV(-3), Atom("int", "i62"), Atom("int", "mi63"),
              Fl(1, 2), Fl(-5, 4), Fl(0, 1), Atom("float", "negzero"), Atom("float", "subnormal"), Atom("float", "tiny"), Atom("float", "huge"), Atom("float", "mhuge"),
+             \* floats next to "nice" values (a serialiser that prettifies pi fractions or rounds must not touch them)
+             Atom("float", "nearpi"), Atom("float", "pihalf_prev"), Atom("float", "fivepisixth"), Atom("float", "pi"), Atom("float", "mquarterpi_near"),
+             Atom("float", "third"), Atom("float", "e"), Atom("float", "sqrt2_next"),
              Cx(1, 1, 2, 1), Cx(-1, 2, 3, 4), Cx(1, 4, -2, 1), Cx(-3, 1, -1, 8), Cx(0, 1, 1, 1), Cx(2, 1, 0, 1),
              Bool(TRUE), Bool(FALSE), Str("hello"), Str("a_b 1") }
 Lists == { Lst(<<IntV(1), IntV(-2)>>), Lst(<<Fl(1, 2), IntV(3), Bool(TRUE)>>), Lst(<<Str("x"), Str("yz")>>), Lst(<<Cx(1, 1, -2, 1), Fl(-1, 4)>>), Lst(<<Atom("float", "tiny"), IntV(0)>>) }
